@@ -31,7 +31,7 @@ def _gen_op(rng, kind, cur, big):
 
     def t():
         return rng.choice(bs) + rng.choice([0, 0, 0, -1, 1]) if rng.random() < 0.5 else rng.randint(lo - 3, hi + 3)
-    ops = ["crop", "erase", "space", "edit", "insert", "insert", "delete", "union", "append", "dejitter", "new", "construct"]
+    ops = ["crop", "erase", "space", "edit", "insert", "insert", "delete", "union", "append", "dejitter", "new", "construct", "construct"]
     if kind == "I":
         ops += ["difference", "intersection", "mergeLabels", "morph"]
     op = rng.choice(ops)
@@ -98,9 +98,17 @@ def _gen_op(rng, kind, cur, big):
             ents.append([s, s + rng.randint(-1, 8), rng.choice(WS_LABELS)])
     else:
         ents = [[rng.randint(0, big), rng.choice(WS_LABELS)] for _ in range(n)]
+    if rng.random() < 0.5:
+        # what callers mostly hand over: entries already in time order, labels already trimmed
+        ents.sort()
+        if rng.random() < 0.7:
+            ents = [e[:-1] + [e[-1].strip()] for e in ents]
     mn = None if rng.random() < 0.3 else rng.randint(-2, 5)
     mx = None if rng.random() < 0.3 else rng.randint(big - 10, big + 5)
     return {"op": op, "name": "c", "entries": ents, "mn": mn, "mx": mx}
+
+
+_SIBLINGS = []
 
 
 def _apply(tier, o, sc, kind):
@@ -119,6 +127,13 @@ def _apply(tier, o, sc, kind):
         if (st >> 4) % 3 == 1:
             ents = tuple(ents)
         cls = IntervalTier if kind == "I" else PointTier
+        if (st >> 6) % 2:
+            # a second tier built from the very same list object: each has its own entries from then on
+            try:
+                sib = cls(o["name"], ents, None if o["mn"] is None else sc.f(o["mn"]), None if o["mx"] is None else sc.f(o["mx"]))
+                _SIBLINGS.append((sib, core.raw_tier(sib)))
+            except Exception:  # noqa
+                pass
         return cls(o["name"], ents, None if o["mn"] is None else sc.f(o["mn"]), None if o["mx"] is None else sc.f(o["mx"]))
     return tierops.apply_op(tier, o["op"], o, sc, kind)
 
@@ -150,6 +165,7 @@ def _run_history(t0, ops, sc, kind, gen_next=None, rng=None, nsteps=0):
     tier = core.mk_tier(t0, sc)
     cur = core.snap_tier(tier, sc)
     recs, used = [], []
+    del _SIBLINGS[:]
     k = 0
     while True:
         if gen_next is not None:
@@ -168,6 +184,9 @@ def _run_history(t0, ops, sc, kind, gen_next=None, rng=None, nsteps=0):
             tier = r
         except Exception as e:  # noqa
             err = core.err_kind(e)
+        for sib, was in _SIBLINGS:
+            if core.raw_tier(sib) != was:
+                raise core.OffGrid("a tier built from the same entry list as the tier under edit changed with it (step %d, %s)" % (k, o["op"]))
         with core.captured_stdout():
             v = bool(tier.validate("silence"))
         cur = core.snap_tier(tier, sc)
@@ -199,6 +218,18 @@ def generate(tier, rng):
         except core.OffGrid:
             continue
         cases.append({"op": "hist", "tier": t0, "args": {"ops": ops}, "scale": ["near", 1]})
+    # two tiers built from the same entry list (a caller's own list of named tuples, tuples or lists), one of them edited
+    for _ in range(150 if tier == "quick" else 5000):
+        kind = "I" if rng.random() < 0.75 else "P"
+        t0 = gen.random_itier(rng, tmax=40, maxn=5) if kind == "I" else gen.random_ptier(rng, tmax=40, maxn=5)
+        cur, ops = t0, []
+        for _k in range(rng.randint(1, 3)):
+            o = _gen_op(rng, kind, cur, 40)
+            while o["op"] not in ("insert", "delete"):
+                o = _gen_op(rng, kind, cur, 40)
+            ops.append(o)
+        cases.append({"op": "sib", "tier": t0, "args": {"ops": ops, "etype": rng.choice(["nt", "nt", "tuple", "list"]), "same_name": rng.random() < 0.5},
+                      "scale": gen.pick_scale(rng, decimal_share=0.0)})
     # constructors on raw binary64 values whose boundaries touch, nearly touch (1 ulp apart either way) or are
     # decimal sums such as 0.1+0.2 against 0.3: whatever is returned must be well-formed in exact comparison
     import math
@@ -265,7 +296,54 @@ def _run_fctor(case):
     return [[None, None, v, _rank_snap(t)]]
 
 
+def _run_sib(case):
+    """two tiers built from one and the same entry list; one is edited; both must be well-formed and the other unchanged"""
+    from praatio.data_classes.interval_tier import IntervalTier
+    from praatio.data_classes.point_tier import PointTier
+    from praatio.utilities.constants import Interval, Point
+    sc = core.Scale(*case["scale"])
+    spec, a = case["tier"], case["args"]
+    isI = spec["kind"] == "I"
+    ents = [tuple([sc.f(x) for x in e[:-1]] + [e[-1]]) for e in spec["entries"]]
+    if a["etype"] == "nt":
+        ents = [(Interval(*e) if isI else Point(*e)) for e in ents]
+    elif a["etype"] == "list":
+        ents = [list(e) for e in ents]
+    cls = IntervalTier if isI else PointTier
+    one = cls(spec["name"], ents, sc.f(spec["min"]), sc.f(spec["max"]))
+    two = cls(spec["name"] if a["same_name"] else "other", ents, sc.f(spec["min"]), sc.f(spec["max"]))
+    was = core.raw_tier(two)
+    kept = list(ents)
+    probs = []
+    with core.captured_stdout():
+        for o in a["ops"]:
+            try:
+                tierops.apply_op(one, o["op"], o, sc, spec["kind"])
+            except Exception:  # noqa
+                pass
+            for t, nm in ((one, "edited"), (two, "other")):
+                if not _wf_exact(t):
+                    probs.append("the %s tier is not well-formed after %s" % (nm, o["op"]))
+    if core.raw_tier(two) != was:
+        probs.append("editing one of two tiers built from the same entry list changed the other")
+    if ents != kept:
+        probs.append("editing a tier changed the entry list it was built from")
+    return probs
+
+
+def _wf_exact(t):
+    es = list(t.entries)
+    if len(es) and len(es[0]) == 3:
+        ok = all(e[0] < e[1] for e in es) and all(x[1] <= y[0] for x, y in zip(es, es[1:]))
+        ok = ok and all(t.minTimestamp <= e[0] and e[1] <= t.maxTimestamp for e in es)
+    else:
+        ok = all(x[0] <= y[0] for x, y in zip(es, es[1:])) and all(t.minTimestamp <= e[0] <= t.maxTimestamp for e in es)
+    return ok and all(e[-1] == e[-1].strip() for e in es)
+
+
 def run(case):
+    if case["op"] == "sib":
+        return core.run_guarded(lambda: _run_sib(case))
     if case["op"] == "fctor":
         return core.run_guarded(lambda: _run_fctor(case))
     sc = core.Scale(*case["scale"])
@@ -318,7 +396,7 @@ def _cop(kind, o):
 
 
 def emit(case, r):
-    if "ok" not in r:
+    if "ok" not in r or case["op"] == "sib":
         return None
     kind = case["tier"]["kind"]
     ct = core.citier if kind == "I" else core.cptier
@@ -346,10 +424,14 @@ def model_expr(case):
 def py_checks(case, r):
     if "ok" not in r:
         return ["history harness failed: %r" % (r,)]
+    if case["op"] == "sib":
+        return r["ok"]
     return []
 
 
 def classify(case, r):
+    if case["op"] == "sib":
+        return "siblings/%s/%s" % (case["tier"]["kind"], case["args"]["etype"])
     if case["op"] == "fctor":
         return "fctor/%s/%s" % (case["tier"]["kind"], "raised" if r.get("ok", [[1]])[0][0] is not None else "built")
     nerr = sum(1 for x in r.get("ok", []) if x[0] is not None)
@@ -357,13 +439,15 @@ def classify(case, r):
 
 
 def nontrivial(case, r):
+    if case["op"] == "sib":
+        return True
     if case["op"] == "fctor":
         return len(case["args"]["ents"]) >= 2
     return len(case["args"]["ops"]) >= 3 and any(x[0] is None for x in r.get("ok", []))
 
 
 def shrinks(case):
-    if case["op"] == "fctor":
+    if case["op"] in ("fctor", "sib"):
         return
     ops = case["args"]["ops"]
     for k in range(len(ops) - 1, 0, -1):
